@@ -1014,6 +1014,10 @@ def suite_profiler(rng, n, stats, n_big=1):
                 a_arg = (attrs or []) + ['no_such_attr']
             elif c < 0.22:
                 t_arg = df.iloc[0:0]
+            elif c < 0.30:
+                a_arg = []          # explicitly empty attribute list: no rows, not "all columns"
+            elif c < 0.34:
+                t_arg, a_arg = df.iloc[0:0], []
             try:
                 o2 = profile_table_for_join(t_arg, a_arg)
                 e2 = {'ok': [[str(a), str(o2.loc[a, 'Unique values']), str(o2.loc[a, 'Missing values']), str(o2.loc[a, 'Comments'])] for a in o2.index]}
